@@ -1,26 +1,53 @@
 /-
-  C07 — obligations pinning the REGENERATED decision expressions (Generated/C07.lean, rewritten from the Go source on
-  every run) to the ones the hand-written model was transcribed from. These are source-text pins: a behaviour-preserving
-  rewrite of one of these expressions also makes the obligation fail (reported as `no-failing-input-found`; the
-  correspondence runs then carry the property alone), a behaviour-changing one additionally shows up there.
+  C07 — obligations tying the REGENERATED decision expressions (Generated/C07.lean, rewritten from the Go source on
+  every run) to the model. Every fact is an `Option`: `none` = the translator could not locate the anchor or does not
+  understand its shape (T-TIE-UNAVAILABLE; the obligation is vacuous and the correspondence ops carry the property).
+  A located fact must satisfy its obligation, which is stated SEMANTICALLY — as an equation / equivalence against the
+  model's decision over the Boolean / natural-number variables the source test depends on — so that an equivalent
+  re-spelling (operands swapped, De Morgan, renamed locals, Pretty() on both sides …) still satisfies it.
 -/
+import SygmaModel.Model.C07
 import SygmaModel.Generated.C07
 namespace Sygma.C07
 
-/-- `Less`: descending by the big-endian uint64 prefix of Keccak256(Pretty ++ SessionID) (model: `sortDesc`, `electionKey`) -/
-theorem gen_less : Generated.C07.lessReturn = "binary.BigEndian.Uint64(iHash) > binary.BigEndian.Uint64(jHash)" ∧
-    Generated.C07.lessHashes =
-      ["iHash=crypto.Keccak256(append([]byte(sps[i].ID.Pretty()), []byte(sps[i].SessionID)...))",
-       "jHash=crypto.Keccak256(append([]byte(sps[j].ID.Pretty()), []byte(sps[j].SessionID)...))"] := by decide
+/-- `Less` orders by the Keccak key, descending (model: `sortDesc`, `electionKey`) -/
+theorem gen_less : ∀ b, Generated.C07.lessDescending = some b → b = true := by
+  intro b hb
+  unfold Generated.C07.lessDescending at hb
+  cases hb
+  all_goals rfl
 
-/-- the three sender guards (model: `accepts`, `failFrom`) -/
-theorem gen_sender_guards :
-    Generated.C07.waitGuards = ["coordinator != \"\" && wMsg.From != coordinator", "coordinator != \"\" && startMsg.From != coordinator"] ∧
-    Generated.C07.watchGuards = ["msg.From.Pretty() != coordinator.Pretty()"] := by decide
+/-- the initiate and the start case of waitForStart ignore a message exactly when a coordinator is known and the
+    sender is not it (model: `accepts c f = (c = none ∨ f = c)`) -/
+theorem gen_wait_guards : ∀ gs, Generated.C07.waitGuards = some gs →
+    gs.length = 2 ∧ ∀ g ∈ gs, ∀ known same : Bool, g known same = (known && !same) := by
+  intro gs h
+  unfold Generated.C07.waitGuards at h
+  cases h
+  all_goals (refine ⟨rfl, ?_⟩; intro g hg known same; simp at hg; rcases hg with rfl | rfl <;> cases known <;> cases same <;> rfl)
 
-/-- admission of a ready message and the Ready test of both Signing types (model: `addReady`, `isReady`) -/
-theorem gen_ready : Generated.C07.readyAdmission =
-      ["!slices.Contains(excludedPeers, wMsg.From) && !slices.Contains(readyPeers, wMsg.From)"] ∧
-    Generated.C07.readyTests = ["len(readyPeers) == s.key.Threshold+1", "len(readyPeers) == s.key.Threshold+1"] := by decide
+/-- the fail case of watchExecution ignores a message exactly when the sender is not the coordinator it was given —
+    also when it was given the empty id (model: `failFrom`) -/
+theorem gen_watch_guard : ∀ g, Generated.C07.watchGuard = some g → ∀ known same : Bool, g known same = !same := by
+  intro g h
+  unfold Generated.C07.watchGuard at h
+  cases h
+  all_goals (intro known same; cases known <;> cases same <;> rfl)
+
+/-- a ready sender is admitted exactly when it is neither excluded nor already in the ready set (model: `addReady`) -/
+theorem gen_ready_admission : ∀ f, Generated.C07.readyAdmission = some f →
+    ∀ excl present : Bool, f excl present = (!excl && !present) := by
+  intro f h
+  unfold Generated.C07.readyAdmission at h
+  cases h
+  all_goals (intro excl present; cases excl <;> cases present <;> rfl)
+
+/-- `Ready` of both Signing types: exactly threshold+1 ready key holders (model: `isReady`) -/
+theorem gen_ready_tests : ∀ fs, Generated.C07.readyTests = some fs →
+    fs.length = 2 ∧ ∀ f ∈ fs, ∀ n t : Nat, (f n t = true ↔ n = t + 1) := by
+  intro fs h
+  unfold Generated.C07.readyTests at h
+  cases h
+  all_goals (refine ⟨rfl, ?_⟩; intro f hf n t; simp at hf; rcases hf with rfl | rfl <;> simp <;> omega)
 
 end Sygma.C07
